@@ -25,6 +25,7 @@ type Obl struct {
 	Inputs []string // terms to get-value
 	Props  []string // clause-level property filter (post obligations)
 	Clause *Clause
+	vc     *fnVC // generation this obligation belongs to, when a function is generated in two modes
 }
 
 type fact struct {
@@ -86,6 +87,7 @@ type fnVC struct {
 	defers   []*ssa.Defer
 	curClause *Clause
 	ghostDone bool
+	entrySeq  map[*ssa.BasicBlock]int
 }
 
 func (v *fnVC) fresh(prefix string) string {
@@ -485,7 +487,7 @@ func (v *fnVC) loadAt(addr T, t types.Type, snap map[string]T) T {
 	// heap well-formedness, instantiated on demand: a reference read from memory state S is
 	// nil or allocated in the allocation state belonging to S
 	if !strings.Contains(res, "q_") {
-		var ref T
+		var ref, ifaceTag T
 		switch t.Underlying().(type) {
 		case *types.Slice:
 			ref = app("sbase", res)
@@ -493,6 +495,7 @@ func (v *fnVC) loadAt(addr T, t types.Type, snap map[string]T) T {
 			ref = res
 		case *types.Interface:
 			ref = app("ipay", res)
+			ifaceTag = app("itag", res)
 		}
 		if ref != "" {
 			v.memSrt[allocMem] = "Bool"
@@ -508,7 +511,11 @@ func (v *fnVC) loadAt(addr T, t types.Type, snap map[string]T) T {
 			}
 			if gk := fmt.Sprint(v.blk.Index, "wf", res, al); !v.grounded[gk] {
 				v.grounded[gk] = true
-				v.assume(or(eq(ref, "0"), sel(al, ref)))
+				if ifaceTag != "" {
+					v.assume(implies(app("isptrtag", ifaceTag), or(eq(ref, "0"), sel(al, ref))))
+				} else {
+					v.assume(or(eq(ref, "0"), sel(al, ref)))
+				}
 			}
 		}
 	}
@@ -575,7 +582,7 @@ func (v *fnVC) rangeFact(t T, ty types.Type) T {
 	case *types.Pointer, *types.Map, *types.Chan:
 		return or(eq(t, "0"), v.allocd(t))
 	case *types.Interface:
-		return or(eq(app("ipay", t), "0"), v.allocd(app("ipay", t)))
+		return implies(app("isptrtag", app("itag", t)), or(eq(app("ipay", t), "0"), v.allocd(app("ipay", t))))
 	}
 	if isString(ty) {
 		return and(app(">=", app("slen", t), "0"), app("<=", app("slen", t), "9223372036854775807"))
@@ -884,6 +891,34 @@ func (v *fnVC) run() {
 				}
 			}
 		}
+		if nt, ok := p.Type().(*types.Named); ok && nt.Obj().Name() == "value" && inModule(nt) {
+			// model inputs behind the value interface: the scalar content of each primitive value type
+			for _, tn := range []string{"cfgBool", "cfgInt", "cfgUint", "cfgFloat", "cfgString"} {
+				obj := nt.Obj().Pkg().Scope().Lookup(tn)
+				if obj == nil {
+					continue
+				}
+				n, st, ok := v.isModStruct(obj.Type())
+				if !ok {
+					continue
+				}
+				v.P.tag(types.NewPointer(obj.Type()))
+				for i := 0; i < st.NumFields(); i++ {
+					f := st.Field(i)
+					if b, ok := f.Type().Underlying().(*types.Basic); ok {
+						t := v.loadAt(v.fieldAddr(n, f.Name(), app("ipay", q(name))), f.Type(), map[string]T{})
+						if b.Info()&types.IsString != 0 {
+							v.addInput(app("slen", t), p.Name(), tn+"."+f.Name(), "slen", 0, f.Type())
+							for k := 0; k < 8; k++ {
+								v.addInput(app("sat", t, intLit(int64(k))), p.Name(), tn+"."+f.Name(), "sat", k, f.Type())
+							}
+						} else {
+							v.addInput(t, p.Name(), tn+"."+f.Name(), "val", 0, f.Type())
+						}
+					}
+				}
+			}
+		}
 		if isString(p.Type()) {
 			v.addInput(app("slen", q(name)), p.Name(), "", "slen", 0, p.Type())
 			for k := 0; k < 8; k++ {
@@ -906,6 +941,10 @@ func (v *fnVC) run() {
 		v.blk = b
 		v.idx = 0
 		v.enterBlock(b)
+		if v.entrySeq == nil {
+			v.entrySeq = map[*ssa.BasicBlock]int{}
+		}
+		v.entrySeq[b] = v.seq
 		for _, in := range b.Instrs {
 			v.idx++
 			v.instr(in)
